@@ -19,7 +19,7 @@ DIMS = {
     # how the (last) subject statement is spelled: name, `!` and `(` on one line, or the name alone on the line the statement
     # starts on with `!(` on the next one / layout between them
     "spelling": ["tight", "tight", "name_then_newline", "spaced", "comment_between"],
-    "mb": ["none", "before_on_line", "unicode_neighbour"],
+    "mb": ["none", "before_on_line", "unicode_neighbour", "code_before", "code_before"],
     "structured": [False, True],
 }
 
@@ -76,12 +76,18 @@ def build(fileseed, rows, eol):
         nonlocal n
         n += 1
         f = dict(gen.NEUTRAL)
+        hi_ref = None
+        if eff == "ignore" and role == "subject" and hash(fileseed) % 4 != 0 and rnd.random() < 0.3:      # (not in trees that also hold a twin file)
+            # an ignored statement that happens to carry a (large) reference: skipped means skipped - it must not steer the numbering
+            hi_ref = 3000000000 + n
         f["bang"] = {"name_then_newline": "nl", "spaced": "both", "comment_between": "cm"}.get(spelling, "tight")
         f["lay"] = "nl" if multiline else "tight"
         f["nkv"] = rnd.choice([0, 1, 2])
         f["target"] = rnd.choice(["none", "plain"])
         f["pre"] = "bol"
-        _, st, post = gen.build_stmt(f, "S%s_%d" % (fileseed, n), rnd, eol=eol)
+        if hi_ref:
+            f["ref"] = "valid"
+        _, st, post = gen.build_stmt(f, "S%s_%d" % (fileseed, n), rnd, eol=eol, ref_id=hi_ref)
         gf.raw(pre)
         it = gf.add_stmt("", st, post)
         meta.append((it, eff, row, role))
@@ -128,6 +134,9 @@ def build(fileseed, rows, eol):
             gf.raw("/* 世界 é */ ")
         elif row["mb"] == "unicode_neighbour":
             gf.raw('é!("neighbour"); ')
+        elif row["mb"] == "code_before":
+            # the statement is not the first thing on its line (match arm, one-line if, let, return)
+            gf.raw(rnd.choice(["Err(e) => ", "if verbose { ", "let _r = ", "return ", "Some(v) => { v; ", "x.iter().for_each(|v| "]))
         for k in range(row["nstmts"]):
             last = (k == row["nstmts"] - 1)
             stmt(row["multiline"] and last, "subject", row, eff, pre=" " if k else "",
@@ -223,6 +232,13 @@ def work(job):
         out = lab.run_tree(built, box, files, cfg, trace=False)
     fo = out.files["src/f.rs"]
     res = {"evaluations": 2, "nontrivial": [], "violations": [], "samples": [], "inconclusive": {}, "counters": {}}
+    hi = [t for t in fo.tokens if t["id"] >= 3000000000]
+    if hi:
+        res["violations"].append({"signature": "C14.ignored-statement-steers-the-numbering|%s" % ("structured" if structured else "unstructured"),
+                                  "detail": {"inserted_ids": sorted(t["id"] for t in hi)[:4], "note": "an ignored statement carries [ref: 3000000000+k]"},
+                                  "case": {"rows": rows, "structured": structured, "eol": eol, "fileseed": fileseed}})
+    if out.edit.rc not in (0, None) and any(getattr(it.stmt, "ref_msg", None) and it.stmt.ref_msg >= 3000000000 for it, _, _, _ in meta):
+        pass
     for rel, it, eff in minis:
         fm = out.files[rel]
         if fm.tokens is None or out.check.panicked() or out.edit.panicked():
